@@ -17,32 +17,68 @@ import vlib
 SPECDIR = "b2f"
 
 
+def bad_tokens():
+    txt = open(os.path.join(vlib.SPEC, SPECDIR, "B2FRobust.tla")).read()
+    blk = txt[txt.index("BadTokens =="):txt.index("VARIABLES role")]
+    return set(re.findall(r'"([A-Za-z0-9]+)"', blk)) - {"Hs", "Cmd", "FsWait", "Xfer", "Done"}
+
+
+BAD = bad_tokens()
+
+
 def run(ctx):
     binary = vlib.build_harness(ctx)
     quick = ctx.tier == "quick"
     rng = random.Random(ctx.seed)
-    r = vlib.tlc(ctx, SPECDIR, "B2FRobust", "B2FRobust_plan_quick.cfg" if quick else "B2FRobust_plan_thorough.cfg",
-                 timeout=1500)
-    if not r.ok:
-        raise vlib.Undecided("plan enumeration failed: %s" % r.error)
-    plans = []
-    for line in r.out.splitlines():
-        if line.startswith('"{') and '\\"plan\\"' in line:
-            plans.append(json.loads(json.loads(line)))
+    import hashlib
+    cfgname = "B2FRobust_plan_quick.cfg" if quick else "B2FRobust_plan_thorough.cfg"
+    h = hashlib.sha1()
+    for fn in ("B2FRobust.tla", cfgname):
+        h.update(open(os.path.join(vlib.SPEC, SPECDIR, fn), "rb").read())
+    cache = os.path.join(vlib.VERIF, ".cache", "c03-plan-%s.json" % h.hexdigest()[:16])
+    plan_states = None
+    if os.path.exists(cache):
+        # the plan is a deterministic function of the specification: reuse the enumeration TLC produced for these files
+        c = json.load(open(cache))
+        plans, plan_states = c["plans"], c["states"]
+        ctx.states += plan_states["distinct"]
+        ctx.transitions += plan_states["generated"]
+        ctx.tlc_runs.append({"module": "B2FRobust", "cfg": cfgname, "cached": True, **plan_states})
+    else:
+        r = vlib.tlc(ctx, SPECDIR, "B2FRobust", cfgname, timeout=1500)
+        if not r.ok:
+            raise vlib.Undecided("plan enumeration failed: %s" % r.error)
+        plans = []
+        for line in r.out.splitlines():
+            if line.startswith('"{') and '\\"plan\\"' in line:
+                plans.append(json.loads(json.loads(line)))
+        os.makedirs(os.path.dirname(cache), exist_ok=True)
+        json.dump({"plans": plans, "states": {"distinct": r.distinct, "generated": r.generated}}, open(cache, "w"))
     if len(plans) < 1000:
         raise vlib.Undecided("plan enumeration produced only %d paths" % len(plans))
     # covering subset: first occurrence of every (role, pend, context, last non-EOF token)
     rng.shuffle(plans)
-    chosen, seen = [], set()
+    chosen, seen, floods = [], set(), set()
     for p in plans:
         toks = [t for t in p["path"] if t != "EOF"]
         if not toks:
             continue
-        key = (p["role"], p["pend"], tuple(toks[-2:]))
-        if key not in seen:
-            seen.add(key)
+        # context of a path: the malformed tokens it contains with the token that follows each, and how it ends
+        ctxt = []
+        for i, t in enumerate(toks):
+            if t in BAD:
+                ctxt.append((t, toks[i + 1] if i + 1 < len(toks) else "EOF", toks[i + 2] if i + 2 < len(toks) else "EOF"))
+        keys = {(p["role"], p["pend"], "end", tuple(toks[-2:]))} | {(p["role"], p["pend"], "bad", c) for c in ctxt}
+        if "BlankFlood" in toks:
+            # six megabytes each: a handful is enough (role x pending x phase of the flood)
+            fk = (p["role"], p["pend"], toks.index("BlankFlood") > 2)
+            if fk in floods:
+                continue
+            floods.add(fk)
+        if not keys <= seen:
+            seen |= keys
             chosen.append(p)
-    budget = 4000 if quick else 60000
+    budget = 5000 if quick else 60000
     extra = [p for p in plans if p not in chosen[:0]][:max(0, budget - len(chosen))]
     chosen += extra
     plan_file = ctx.path("plans.ndjson")
